@@ -305,6 +305,8 @@ async fn run_case(addr: SocketAddr, certs: &Certs, t: &[&str]) -> anyhow::Result
                 p.send(reg_frame("RP", &n.0, &n.1)).await?;
                 answers.push(answer(&mut p).await);
                 let _ = p.send(Frame::Message(MessagePayload { headers: None, message: bytes::Bytes::from(text) })).await;
+                // … and one batch frame (what a publisher with batching enabled sends): forwarded like any message
+                let _ = p.send(Frame::BatchMessage(bytes::Bytes::from(text))).await;
                 let _ = p.finish().await;
                 // the next publisher only after this one's message has had time to go through
                 tokio::time::sleep(Duration::from_millis(60)).await;
@@ -312,7 +314,13 @@ async fn run_case(addr: SocketAddr, certs: &Certs, t: &[&str]) -> anyhow::Result
             let mut seen = vec![];
             for s in subs.iter_mut() {
                 let mut got = vec![];
-                while let Ok(Some(Ok(Frame::Message(m)))) = tokio::time::timeout(Duration::from_millis(250), s.next()).await { got.push(String::from_utf8_lossy(&m.message).to_string()); }
+                loop {
+                    match tokio::time::timeout(Duration::from_millis(250), s.next()).await {
+                        Ok(Some(Ok(Frame::Message(m)))) => got.push(String::from_utf8_lossy(&m.message).to_string()),
+                        Ok(Some(Ok(Frame::BatchMessage(b)))) => got.push(format!("B:{}", String::from_utf8_lossy(&b))),
+                        _ => break,
+                    }
+                }
                 seen.push(if got.is_empty() { "-".to_string() } else { got.join("+") });
             }
             drop(subs);
@@ -469,7 +477,8 @@ pub fn run(cfg: &Cfg) {
                     }
                     if t[1] == "iso" {
                         let same = t[2] == t[4] && t[3] == t[5];
-                        let (wa, wb) = if same { ("from-a+from-b", "from-a+from-b") } else { ("from-a", "from-b") };
+                        let both = "from-a+B:from-a+from-b+B:from-b";
+                        let (wa, wb) = if same { (both, both) } else { ("from-a+B:from-a", "from-b+B:from-b") };
                         if !line.contains(&format!(" a={wa} b={wb} ")) { m = Err(format!("C01/C07: two names {} traffic: {line}", if same { "that are equal do not share" } else { "that differ share / lose" })); }
                     }
                     if t[1] == "mismatch" {
